@@ -325,6 +325,35 @@ def bool_tuple_match(scrut, arms):
     return conds
 
 
+def _returned_value(e):
+    """`{ return v; }` / `return v`: the expression v, else None"""
+    e = H.strip(e)
+    if e.get("k") == "Ret":
+        return e.get("e")
+    if e.get("k") == "Block":
+        b = e["b"]
+        if not b["stmts"] and b.get("tail"):
+            return _returned_value(b["tail"])
+        if len(b["stmts"]) == 1 and not b.get("tail") and b["stmts"][0].get("k") in ("Semi", "Expr"):
+            return _returned_value(b["stmts"][0]["e"])
+    return None
+
+
+def _literal_match(arms):
+    """<= 3 arms, each a string/char/bool/int literal (or an or-pattern of them) except a final wildcard / binding: reads as an
+    if / else-if chain of equality tests. Larger matches are tables and stay opaque."""
+    if not (2 <= len(arms) <= 3) or any(a.get("guard") for a in arms):
+        return False
+    last = arms[-1]["pat"]
+    if not (last.get("k") == "Wild" or (last.get("k") == "Binding" and not last.get("sub"))):
+        return False
+    for a in arms[:-1]:
+        p = a["pat"]
+        if not (p.get("k") == "Expr" and "lit" in p):
+            return False
+    return True
+
+
 def _bool_patterns(arms):
     """every arm pattern is a wildcard or a tuple of boolean literals / wildcards, without guards"""
     if not arms:
@@ -422,6 +451,11 @@ class NF:
                 env_a = env.child()
                 bind_pattern(a["pat"], scrut, env_a)
                 arms.append((pat_label(a["pat"]), self.nf(a["body"], env_a)))
+            if _literal_match(e["arms"]):
+                v = arms[-1][1]
+                for a, (_, val) in reversed(list(zip(e["arms"], arms))[:-1]):
+                    v = ("ifelse", ("binop", "Eq", scrut, ("lit", a["pat"].get("v"))), val, v)
+                return v
             btm = bool_tuple_match(scrut, e["arms"])
             if btm is not None:
                 v = arms[-1][1]
@@ -483,6 +517,16 @@ class NF:
             if s.get("k") == "Let":
                 rest = b["stmts"][i + 1:] + ([{"k": "Expr", "e": b["tail"]}] if b.get("tail") else [])
                 self.bind_let(s, env2, rest)
+            elif s.get("k") in ("Semi", "Expr"):
+                # `if c { return v; }` followed by the rest of the block: the block's value is `if c { v } else { rest }`
+                e = H.strip(s["e"])
+                if e.get("k") == "If" and not e.get("else") and H.strip(e["cond"]).get("k") != "LetExpr":
+                    rv = _returned_value(e["then"])
+                    if rv is not None:
+                        cond = self.nf(e["cond"], env2)
+                        val = self.nf(rv, env2)
+                        rest_b = {"stmts": b["stmts"][i + 1:], "tail": b.get("tail")}
+                        return ("ifelse", cond, val, self.block_value(rest_b, env2))
         if b.get("tail"):
             return self.nf(b["tail"], env2)
         return ("lit", None)
@@ -1378,11 +1422,21 @@ class CallExpander:
                 env.m[i] = ("param", name)
                 names.append(name)
         # only straight-line bodies (no loops / early returns)
+        top = H.strip(nb["value"])
+        folded = set()
+        if top.get("k") == "Block":
+            for st in top["b"]["stmts"]:
+                if st.get("k") in ("Semi", "Expr"):
+                    ee = H.strip(st["e"])
+                    if ee.get("k") == "If" and not ee.get("else") and _returned_value(ee["then"]) is not None:
+                        folded |= {id(y) for y in H.exprs(ee["then"]) if y.get("k") == "Ret"}
         for x in H.exprs(nb["value"]):
-            if x.get("k") in ("For", "Loop", "Ret", "Try"):
+            if x.get("k") in ("For", "Loop", "Try"):
+                return None
+            if x.get("k") == "Ret" and id(x) not in folded:
                 return None
             if x.get("k") == "Match" and option_match([pat_label(a["pat"]) for a in x.get("arms", [])], x.get("arms", [])) is None \
-                    and not _bool_patterns(x.get("arms", [])):
+                    and not _bool_patterns(x.get("arms", [])) and not _literal_match(x.get("arms", [])):
                 return None  # only matches that read as if/else (option, tuple of booleans); tables and variant dispatch stay opaque calls
         v = self.NF.nf(nb["value"], env)
         if any(r[0] in ("unknown", "local") for r in nf_roots(v)):
